@@ -66,7 +66,26 @@ def rescale(rng, hint):
     return {"x": x, "s": float(rng.choice([1.0000001, 1.5, 5.0, 1000.0]))}
 
 
-GENS = {"constrain_ages": constrain_ages, "damp": damp, "rescale": rescale}
+def reallocate_unphased(rng, hint):
+    E = int(rng.integers(2, 8))
+    B = int(rng.integers(0, 4))
+    be = [[int(x) for x in rng.choice(E, size=2, replace=bool(rng.random() < 0.1))] for _ in range(B)]
+    M = int(rng.integers(0, 8))
+    blk = [int(rng.integers(-1, B)) if B else -1 for _ in range(M)]
+    ph = [float(rng.choice([0.0, 1.0, 0.5, rng.random()])) for _ in range(M)]
+    lik = rng.integers(0, 5, size=(E, 2)).astype(float)
+    # caller state assumed by the kernel's closing assert: the counts on block edges are the singletons
+    # of the blocks (each recorded on one of the block's two edges)
+    for e in {x for pair in be for x in pair}:
+        lik[e, 0] = 0.0
+    for q in range(M):
+        if blk[q] >= 0:
+            lik[be[blk[q]][int(rng.integers(0, 2))], 0] += 1.0
+    return {"edges_likelihood": lik.tolist(), "mutations_phase": ph, "mutations_block": blk,
+            "blocks_edges": be if B else {"shape": [0, 2], "data": []}}
+
+
+GENS = {"reallocate_unphased": reallocate_unphased, "constrain_ages": constrain_ages, "damp": damp, "rescale": rescale}
 
 
 def main():
